@@ -384,12 +384,27 @@ class DataLoader(object):
         if message_types is None or len(message_types) == 0:
             message_types = list(message_type_to_class.keys())
 
-        # If any of the requested types were already read from the file for the requested parameters, skip them.
+        # The cached data for a message type also depends on how it was post-processed (numpy conversion clears or keeps
+        # the messages in place, time alignment drops/inserts messages) and, since max_messages and time alignment apply
+        # across all requested types, on which other types it was read together with.
+        params.update({
+            'message_types': set(message_types),
+            'return_numpy': return_numpy,
+            'keep_messages': keep_messages,
+            'time_align': time_align,
+            'aligned_message_types': aligned_message_types,
+        })
+
+        # If all of the requested types were already read from the file for the requested parameters, use the cached
+        # data. Otherwise, read all of them again: a cached entry must not be appended to or post-processed a second
+        # time.
         if ignore_cache:
             needed_message_types = set(message_types)
         else:
             needed_message_types = [t for t in message_types
                                     if (t not in self.data or self.data[t].params != params)]
+            if len(needed_message_types) > 0:
+                needed_message_types = message_types
             needed_message_types = set(needed_message_types)
 
         # Make cache entries for the messages to be read.
